@@ -327,10 +327,10 @@ static void case_c11(rng_t *r, ctx_t *c) {
             const dtype_t *t = rng_chance(r, 1, 2) ? dtype_by_name("f32") : pick_type(r);
             struct jls_signal_def_s d;
             gen_def(r, &d, (uint16_t) (7 + i), 1, t, DEF_MINIMAL);
-            static const uint32_t af[] = {0, 2, 3, 4, 7, 100, 5, 11};
+            static const uint32_t af[] = {0, 2, 3, 4, 7, 100, 5, 11, 1};   /* 1: below the minimum, stored as 2 */
             d.annotation_decimate_factor = RNG_PICK(r, af);
             if (rng_chance(r, 1, 6)) d.annotation_decimate_factor = (uint32_t) rng_range(r, 2, 40);
-            adf = d.annotation_decimate_factor ? d.annotation_decimate_factor : 100;
+            adf = d.annotation_decimate_factor ? (d.annotation_decimate_factor < 2 ? 2 : d.annotation_decimate_factor) : 100;
             int fcls; int64_t first = gen_first_id(r, &fcls);
             d.sample_id_offset = first;
             int is_vsr = rng_chance(r, 1, 4);   /* variable-sample-rate signals carry annotations only; their timestamps are not offset */
@@ -419,9 +419,9 @@ static void case_c12(rng_t *r, ctx_t *c) {
     const dtype_t *t = rng_chance(r, 2, 3) ? dtype_by_name("f32") : pick_type(r);
     struct jls_signal_def_s d;
     gen_def(r, &d, 9, 1, t, DEF_MINIMAL);
-    static const uint32_t uf[] = {0, 2, 3, 10, 100, 7};
+    static const uint32_t uf[] = {0, 2, 3, 10, 100, 7, 1};   /* 1: below the minimum, stored as 2 */
     d.utc_decimate_factor = RNG_PICK(r, uf);
-    uint32_t udf = d.utc_decimate_factor ? d.utc_decimate_factor : 100;
+    uint32_t udf = d.utc_decimate_factor ? (d.utc_decimate_factor < 2 ? 2 : d.utc_decimate_factor) : 100;
     static const uint32_t rates[] = {1, 2, 50, 1000, 44100, 1000000, 2000000, 999999937, 1000000000};
     d.sample_rate = RNG_PICK(r, rates);
     int fcls; int64_t first = gen_first_id(r, &fcls);
